@@ -386,6 +386,10 @@ example : ∃ g g', replay (lit4 ++ [Event.claim "AAAAAA" "cut" (some 450)]) = .
 example : (replay (lit4 ++ [Event.claim "AAAAAA" "cut" (some 450)])).toOption.bind (fun g => (g.find? "AAAAAA").map fun t => (t.st, t.claimedBy))
     = some (.todo, "cut") := by decide
 
+/-- C05 on a log no CLI history produces (stamps decreasing, a claim on a todo task): items survive compaction -/
+example : ∃ g', replayRaw (compactEvents g5) = .ok g' ∧ (∀ id, (g'.find? id).map Task.core = (g5.find? id).map Task.core) ∧
+    (∀ e, e ∈ g'.deps ↔ e ∈ g5.deps) ∧ g'.tombs = [] := C05_items_survive_compaction_of_any_log lit5 g5 raw5
+
 /-! the order of the lines, not their stamps: lit5 (A claimed by ag-1 at 500) with the claim and the state stamped in the year dot (1) — the same graph up to clock readings -/
 def lit5skew : List Event := lit4 ++ [.claim "AAAAAA" "ag-1" (some 1), .state "AAAAAA" .doing (some 1)]
 theorem same45 : SameLines lit5 lit5skew :=
